@@ -6,7 +6,7 @@ export CARGO_NET_OFFLINE=true
 mkdir -p .build evidence replays
 [ -f harness/Cargo.lock ] || cp /repo/Cargo.lock harness/Cargo.lock
 (cd lean && lake build ZkVerif ZkVerif.Audit driver $(ls ZkVerif/Props/*.lean | sed 's#/#.#g; s#\.lean$##'))
-(cd harness && cargo build --release --offline)
+(cd harness && cargo build --release --offline && cargo build --profile deploy --offline)
 [ -f harness/probes/Cargo.lock ] || cp harness/Cargo.lock harness/probes/Cargo.lock
 (cd harness/probes && cargo check --offline --target-dir ../../.build/probes --bin allow_control)
 echo setup-ok
